@@ -16,11 +16,11 @@ PROP = {
                     "par_map_eq_seq is stated for the parallel phase (initParallel) from any start index with the recording consumer; the composition with MapAuto's sequential prefix, FilterAuto's wrapper, Merge/ToChan, CopyProducer (multiUse) and every other stage is executable in the model and compared on every generated pipeline, not proved"],
     "residue": "Data-race freedom is a statement about the Go memory model: it is observed by the race detector on the schedules that occurred (GOMAXPROCS 1/2/4/16, forced switch), not proved. The theorems prove the protocol (order restoration, failure reporting, schedule independence of the parallel map) and the stack discipline (noninterference on private storages, ownership map of the repaired list.go); they do not prove the channel code of the iterator dependency race-free, nor that the Go runtime realises only the interleavings of the model.",
     "correspondence_only": ["iterator.Merge / ToChan producer goroutines", "multiUse / CopyProducer", "MapAuto sequential prefix + timing switch composition", "FilterAuto wrapper",
-                            "sequential meaning of combine, combine3, combineN, iir, iirCombine, number, compact, cross, top, skip, fsm, '+', and of all terminals (C07/C08 own their theorems)"],
+                            "re-iteration of lazy lists (a lazy pipeline as second list of cross, m.cross(m), m.merge(m), m+m, [m.sum(), m.mapReduce(..), m.size()]): the model denotes a pipeline by a function of its source, the implementation is compared on generated programs", "sequential meaning of combine, combine3, combineN, iir, iirCombine, number, compact, cross, top, skip, fsm, '+', and of all terminals (C07/C08 own their theorems)"],
 }
 
 MANIFEST = {
-    "text": "Theorems (Coq, all schedules, all worker counts, all inputs, no bounds): the collector of iterator.initParallel emits results arriving in any order in index order and reports a failing item at its position at the latest; feeder + workers + collector under every complete schedule give the outcome of the sequential map; goroutines pushing call frames on pairwise different stack storages never see each other's arguments, whereas two agents on one storage do (4-step witness); the ownership map of the repaired value/list.go puts no two goroutines on one stack storage for any pipeline. Tie: pipelines of up to 6 stages over every lazy stage and terminal, lists of 0..2000 elements, per-stage cost profiles forcing/forbidding the wall-clock switch (verified by goroutine ids), GOMAXPROCS 1/2/4/16, evaluated by the real library in a `go build -race` worker and compared with the protocol model under a seeded schedule, the sequential specification (both by vm_compute), the library's own sequential path under taskset and a plain Go fold; a race report is a violation.",
+    "text": "Theorems (Coq, all schedules, all worker counts, all inputs, no bounds): the collector of iterator.initParallel emits results arriving in any order in index order and reports a failing item at its position at the latest; feeder + workers + collector under every complete schedule give the outcome of the sequential map; goroutines pushing call frames on pairwise different stack storages never see each other's arguments, whereas two agents on one storage do (4-step witness); the ownership map of the repaired value/list.go puts no two goroutines on one stack storage for any pipeline. A second traversal of a parallel map under any other schedule gives the same outcome (iteration_is_repeatable). Tie: pipelines of up to 6 stages over every lazy stage and terminal, the other operand of cross/merge/+ being itself a generated lazy pipeline (depth <= 3, nested merge/cross/map/accept/...) and the same lazy list value used several times (let m = ...; m.cross(m), m.merge(m), m+m, three terminals over m), lists of 0..2000 elements, per-stage cost profiles forcing/forbidding the wall-clock switch (verified by goroutine ids), GOMAXPROCS 1/2/4/16, evaluated by the real library in a `go build -race` worker and compared with the protocol model under a seeded schedule, the sequential specification (both by vm_compute), the library's own sequential path under taskset and a plain Go fold; a race report is a violation.",
     "design_ref": "DESIGN.md section 6 C06, section 3.5",
     "note": "Trusted: Coq kernel + VM, the hand-written protocol/stack/ownership models (tied by correspondence), the Go harness, race detector and taskset. Data-race freedom and the Go runtime's interleavings are observed, not proved (residue).",
     "technique": "Coq protocol models with explicit schedules (induction over schedules) + forced-parallel correspondence run under the race detector",
